@@ -20,6 +20,7 @@ import (
 	"github.com/influxdata/influxdb/pkg/verifhook"
 	"github.com/influxdata/influxdb/query"
 	"github.com/influxdata/influxdb/services/meta"
+	"github.com/influxdata/influxdb/services/storage"
 	"github.com/influxdata/influxdb/tcp"
 	"github.com/influxdata/influxdb/toml"
 	"github.com/influxdata/influxdb/tsdb"
@@ -65,6 +66,19 @@ type StoreWrap struct {
 	Served [][]uint64 // shard ids per ShardGroup call
 	Fail   bool
 	node   uint64
+	// OnWrite, when set, sees every WriteToShard before the store does; a
+	// non-nil error is returned to the caller instead of writing.
+	OnWrite func(id uint64, pts []models.Point) error
+}
+
+// WriteToShard lets OnWrite inspect the points first.
+func (s *StoreWrap) WriteToShard(id uint64, pts []models.Point) error {
+	if s.OnWrite != nil {
+		if err := s.OnWrite(id, pts); err != nil {
+			return err
+		}
+	}
+	return s.Store.WriteToShard(id, pts)
 }
 
 type failingGroup struct{ err error }
@@ -195,6 +209,8 @@ func (c *Cluster) startNode(ni meta.NodeInfo, index string) (*Node, error) {
 	n.Svc.MetaClient = n.Meta
 	n.Svc.TaskManager = n.QE.TaskManager
 	n.Svc.Server = serverStub{tcp: ni.TCPAddr, http: ni.Addr}
+	n.Svc.HintedHandoff = noHandoff{}
+	n.Svc.Store = storage.NewStore(n.Sim.Store, n.Meta)
 	ln, err := c.Net.Listen(ni.TCPAddr)
 	if err != nil {
 		return nil, err
@@ -228,6 +244,7 @@ func (noHandoff) WriteShard(shardID, ownerID uint64, points []models.Point) erro
 	return fmt.Errorf("hinted handoff disabled in this simulation")
 }
 func (noHandoff) Empty(shardID, ownerID uint64) bool { return true }
+func (noHandoff) RemoveNode(ownerID uint64) error    { return nil }
 
 // Node returns the node with the given id.
 func (c *Cluster) Node(id uint64) *Node {
